@@ -1776,6 +1776,9 @@ class DocutilsRenderer(RendererProtocol):
         else:
             state_machine = MockStateMachine(self, position)
             state = MockState(self, state_machine, position)
+            if not any(line.strip() for line in parsed.body):
+                # as in docutils, content of only blank lines is no content
+                parsed.body = []
             directive_instance = directive_class(
                 name=name,
                 # the list of positional arguments
